@@ -345,7 +345,9 @@ class World:
                 f["crate"] = crate
                 w.fns[f["id"]] = f
         w.inlined = {}
+        w.renamed = {}
         if known is not None:
+            _alias_renamed(w, known)
             _inline_new_helpers(w, known)
         return w
 
@@ -559,5 +561,112 @@ def _inline_new_helpers(w, known, max_rounds=3, max_blocks=400):
             if cl.parent == c:
                 cl.parent = callers[0]
         w.bodies.pop(c, None)
+    w._children = None
+    w._callers = None
+
+
+def _sig(w, fid):
+    f = w.fns.get(fid)
+    if not f:
+        return None
+    tys = w.tys[f["crate"]]
+    return (tuple(tys[i]["s"] for i in f["inputs"]), tys[f["output"]]["s"])
+
+
+def _fingerprint(b):
+    fp = set()
+    for bl in b.blocks:
+        t = bl["term"]
+        if t["k"] == "call" and not str(t.get("x", "")).startswith("m:"):
+            fp.add("call:" + t.get("f", ""))
+        for s_ in bl["st"]:
+            if "p" in s_:
+                for f in place_fields(s_["p"]):
+                    fp.add("w:" + f)
+                r = s_["r"]
+                if r.get("k") == "agg" and r.get("adt"):
+                    fp.add("agg:" + r["adt"] + "::" + str(r.get("variant")))
+    return sorted(fp)
+
+
+def _alias_renamed(w, known):
+    """A known function that disappeared while exactly one new function with the same signature appeared in the same scope
+    (module / impl) is a rename: analyse the new body under the old name, so anchors keep working."""
+    known_fns = {k for k in known if "{closure" not in k and "{constant" not in k}
+    present = set(w.bodies.keys())
+    missing = [k for k in known_fns if k not in present and k.startswith(tuple(c + "::" for c in w.crates) + tuple("<" + c for c in w.crates))]
+    new = [i for i, b in w.bodies.items() if i not in known and b.kind in ("Fn", "AssocFn")]
+    if not missing or not new:
+        return
+    # signatures of missing functions are not available any more: pair by scope and by the signature recorded for the new one,
+    # requiring uniqueness on both sides within the scope
+    by_scope_new = {}
+    for n in new:
+        by_scope_new.setdefault(n.rsplit("::", 1)[0], []).append(n)
+    by_scope_missing = {}
+    for k in missing:
+        by_scope_missing.setdefault(k.rsplit("::", 1)[0], []).append(k)
+    sigs = known if isinstance(known, dict) else {}
+    pairs = []
+    for scope, ks in by_scope_missing.items():
+        ns = by_scope_new.get(scope, [])
+        if len(ks) == 1 and len(ns) == 1:
+            pairs.append((ks[0], ns[0]))
+            continue
+        # several renames in one scope: pair by signature, unique on both sides
+        for k in ks:
+            sk = sigs.get(k)
+            if not sk:
+                continue
+            sk_sig = sk[:2] if isinstance(sk, list) else sk
+            cand = [n for n in ns if _sig(w, n) is not None and [list(_sig(w, n)[0]), _sig(w, n)[1]] == sk_sig]
+            same_old = [k2 for k2 in ks if (sigs.get(k2) or [None, None])[:2] == sk_sig]
+            if len(cand) == 1 and len(same_old) == 1:
+                pairs.append((k, cand[0]))
+            elif cand and len(sk) > 2:
+                # same signature several times: decide by body fingerprint (callees, written fields, constructed variants)
+                fk = set(sk[2])
+                scored = []
+                for n in cand:
+                    fn_ = set(_fingerprint(w.bodies[n]))
+                    j = len(fk & fn_) / max(1, len(fk | fn_))
+                    scored.append((j, n))
+                scored.sort(reverse=True)
+                if scored[0][0] >= 0.6 and (len(scored) == 1 or scored[0][0] - scored[1][0] >= 0.2):
+                    if not any(p2[1] == scored[0][1] for p2 in pairs):
+                        pairs.append((k, scored[0][1]))
+    for k, n in pairs:
+        # the callers of the old name must all call the new one now (no caller of n that is itself new)
+        nb = w.bodies.pop(n)
+        nb.id = k
+        nb.raw["id"] = k
+        w.bodies[k] = nb
+        if n in w.fns:
+            w.fns[k] = dict(w.fns.pop(n), id=k)
+        for b in w.bodies.values():
+            if b.parent and (b.parent == n or b.parent.startswith(n + "::")):
+                b.parent = k + b.parent[len(n):]
+            for bl in b.blocks:
+                t = bl["term"]
+                if t["k"] == "call":
+                    if t.get("f") == n:
+                        t["f"] = k
+                    if t.get("ft") == n:
+                        t["ft"] = k
+                for s_ in bl["st"]:
+                    r = s_.get("r")
+                    if r and r.get("def", "").startswith(n + "::"):
+                        r["def"] = k + r["def"][len(n):]
+        # closures of the renamed function
+        for cid in [c for c in list(w.bodies) if c.startswith(n + "::")]:
+            cb = w.bodies.pop(cid)
+            cb.id = k + cid[len(n):]
+            cb.raw["id"] = cb.id
+            w.bodies[cb.id] = cb
+        for tys in w.tys.values():
+            for t in tys:
+                if isinstance(t, dict) and t.get("def", "").startswith(n + "::"):
+                    t["def"] = k + t["def"][len(n):]
+        w.renamed[n] = k
     w._children = None
     w._callers = None
